@@ -235,7 +235,18 @@ func writeJSONServerState(stateDir string, js *jsonServerState) error {
 	if encoded, err = json.Marshal(js); err != nil {
 		return err
 	}
-	return os.WriteFile(path.Join(stateDir, stateFile), encoded, 0o600)
+	return writeFileAtomic(path.Join(stateDir, stateFile), encoded, 0o600)
+}
+
+// writeFileAtomic replaces the file at fPath with data, without ever exposing
+// a truncated or partially written file under that name.  The state file is
+// the only copy of the bridge's identity, and os.WriteFile truncates in place.
+func writeFileAtomic(fPath string, data []byte, perm os.FileMode) error {
+	tmpPath := fPath + ".tmp"
+	if err := os.WriteFile(tmpPath, data, perm); err != nil {
+		return err
+	}
+	return os.Rename(tmpPath, fPath)
 }
 
 func newBridgeFile(stateDir string, st *obfs4ServerState) error {
